@@ -37,7 +37,7 @@ for prop in C01 C16 C16 C01 C01 C08 C02 C02 C13 C14 C15 C05; do
   i=$((i+1))
 done
 for spec in "benign2/b1_1:C01 C02 C08 C07" "benign2/b1_2:C01 C02 C08" "benign2/b1_3:C16 C01" "benign2/b1_4:C01 C05" "benign2/b1_5:C01 C05 C02" "benign2/b2_1:C02" "benign2/b2_2:C16" "benign2/b2_3:C14 C01" "benign2/b2_4:C01 C02" "benign2/b2_5:C02" "benign2/b3_1:C13 C07 C11" "benign2/b3_2:C13" "benign2/b3_3:C15 C09" "benign2/b3_4:C15 C09" "benign2/b3_5:C14" "benign2/b3_6:C06" \
-            "benign3/b3a_1:C01 C02" "benign3/b3a_2:C05" "benign3/b3a_3:C05" "benign3/b3a_4:C01 C02" "benign3/b3a_5:C01 C02" "benign3/b3a_6:C08 C07" "benign3/b3b_1:C15 C09" "benign3/b3b_2:C15" "benign3/b3b_3:C09" "benign3/b3b_4:C09" "benign3/b3b_5:C14" "benign3/b3b_6:C06" "benign4/b4a_1:C09" "benign4/b4a_2:C09" "benign4/b4a_3:C09" "benign4/b4a_4:C07 C08 C11" "benign4/b4a_5:C07" "benign4/b4a_6:C07 C11" "benign4/b4b_1:C09" "benign4/b4b_2:C09" "benign4/b4b_3:C09" "benign4/b4b_4:C09" "benign4/b4b_5:C07" "benign4/b4b_6:C07 C08" "benign5/b5_1:C17" "benign5/b5_2:C17" "benign5/b5_3:C17" "benign5/b5_4:C17" "benign5/b5_5:C17" "benign5/b5_6:C17" "benign5/b5_7:C17" "benign5/b5_8:C14" "benign6/b6_1:C15" "benign6/b6_2:C15" "benign6/b6_3:C15" "benign6/b6_4:C17" "benign6/b6_5:C17" "benign6/b6_6:C14"; do
+            "benign3/b3a_1:C01 C02" "benign3/b3a_2:C05" "benign3/b3a_3:C05" "benign3/b3a_4:C01 C02" "benign3/b3a_5:C01 C02" "benign3/b3a_6:C08 C07" "benign3/b3b_1:C15 C09" "benign3/b3b_2:C15" "benign3/b3b_3:C09" "benign3/b3b_4:C09" "benign3/b3b_5:C14" "benign3/b3b_6:C06" "benign4/b4a_1:C09" "benign4/b4a_2:C09" "benign4/b4a_3:C09" "benign4/b4a_4:C07 C08 C11" "benign4/b4a_5:C07" "benign4/b4a_6:C07 C11" "benign4/b4b_1:C09" "benign4/b4b_2:C09" "benign4/b4b_3:C09" "benign4/b4b_4:C09" "benign4/b4b_5:C07" "benign4/b4b_6:C07 C08" "benign5/b5_1:C17" "benign5/b5_2:C17" "benign5/b5_3:C17" "benign5/b5_4:C17" "benign5/b5_5:C17" "benign5/b5_6:C17" "benign5/b5_7:C17" "benign5/b5_8:C14" "benign6/b6_1:C15" "benign6/b6_2:C15" "benign6/b6_3:C15" "benign6/b6_4:C17" "benign6/b6_5:C17" "benign6/b6_6:C14" "benign7/b7_1:C14" "benign7/b7_2:C14" "benign7/b7_3:C14" "benign7/b7_4:C14" "benign7/b7_5:C17"; do
   f=${spec%%:*}; props=${spec#*:}
   out=$(run seeded/$f.diff $props)
   if echo "$out" | grep -q "^VIOLATION"; then echo "$f [$props]: FALSE ALARM"; echo "$out" | head -4; fail=1
